@@ -24,6 +24,7 @@
 -/
 import IvpModel.Proofs.NormLemmas
 import IvpModel.Proofs.BdfGenLemmas
+import IvpModel.Proofs.ReflectRk4
 
 noncomputable section
 variable {K : Type} [Field K] [LinearOrder K] [IsStrictOrderedRing K] [SqrtPow K]
@@ -137,6 +138,13 @@ theorem c13_copies_radau_norms (m n : Nat) (hm : 0 < m) (hn : 0 < n) (cont scal 
   constructor
   · rw [radau_errnorm_spec, radau_errnorm_spec, key]
   · rw [radau_errnorm2_spec, radau_errnorm2_spec, key]
+
+/-- **Whole runs under time reflection (RK4).**  `solve` on the mirrored problem is the mirror image of `solve` on the problem:
+    induction over the loop of `Model/RkLoops.lean` (tied to rk4.rs by X-solve), every right-hand side, observer, step and fuel. -/
+theorem c13_reflect_rk4_whole_run {σ : Type} {n : Nat} (P : Ctl.R4Params K) (f : Ctl.Rhs K n) (ob : Ctl.Obs σ K n) (obs0 : σ) (x0 : K)
+    (y0 : Ctl.Vec K n) (h : K) (h0 : h ≠ 0) (fuel : Nat) :
+    Ctl.rk4Solve (Ctl.rParams P) (Ctl.rRhs f) (Ctl.rObs ob) obs0 (-x0) y0 (-h) fuel
+      = (Ctl.rk4Solve P f ob obs0 x0 y0 h fuel).map Ctl.rResult := Ctl.rk4Solve_reflect P f ob obs0 x0 y0 h h0 fuel
 
 /-- BDF's norm (translated from bdf.rs) is invariant under a common scaling of values and scales, whatever their size -/
 theorem c13_scale_bdf_norm {n : Nat} (c : K) (hc : c ≠ 0) (values scale : Vector K n) (hnz : ∀ i : Fin n, scale[i] ≠ 0) :
